@@ -19,6 +19,17 @@ NA = {
 
 CLAIMED = {
  # id: (level, technique, text, note, design_ref)
+ "C16": ("exploration",
+         "deterministic simulation: one input re-run under different seeded gate schedules, call histories, repetitions, and in fresh worker processes at GOMAXPROCS 1/4/16 with digest comparison",
+         "The dimensions that must not matter are varied while the input is held fixed: gate schedule of the file pipeline (4 seeded schedules per input), GOMAXPROCS 1/4/16 and fresh processes (new hash seed each; the parent compares per-run outcome digests across the three passes), earlier calls in the same process (history), in-process repetition (32 quick / 256 thorough for inputs that end in Bind), and Execute twice on one Prog with Dump before/between/after. Workload includes Unmarshal targets built to expose order dependence (keys colliding on one field, twin inner blocks, several faulty fields, a tag and a name that both match). Map iteration order has no seam: it is sampled by repetition and fresh processes, not scheduled - stated in the evidence.",
+         "A map-order dependence with a rare minority order can be missed by 32 repetitions (measured minority 1/8 -> miss probability about 1.4 percent per input; many inputs per run).",
+         "6/C16"),
+ "C19": ("exploration",
+         "deterministic simulation with knob enumeration: all 8 settings of OptDisasm/OptTrace/OptStats on every run, in memory and through the simulated file pipeline",
+         "Every scenario (accepted, rejected, failing at run time) is executed under all 8 combinations of the three observer options, in memory and through InterpretFile in a synctest bubble under the same seeded schedule. Blocks, binding, error, log must be identical across the 8 and nothing may panic; the program's printed lines must equal the output with the four extra line formats removed; the listing must equal the independent decoder's instruction list (offsets and mnemonics); the trace must have exactly xstats.opsRead instruction lines that follow the decoder's successor relation (next instruction or jump target).",
+         "Workload prints only values without line breaks so that the extra line formats can be told apart from program output.",
+         "6/C19"),
+
  "C07": ("exploration",
          "deterministic simulation: seeded and per-source exhaustive read partitions of the real ParseFile pipeline vs whole-input Parse",
          "Differential oracle on one build: for every (source, partition into reads, gate schedule) the real ParseFile pipeline, run in a synctest bubble with a scripted reader, must give the same accept/reject, error text, diagnostics, listing/statistics and byte-identical dump as bcl.Parse of the whole source. Partitions: every single cut of sources up to 400 bytes (x4 zero-read placements), 1 byte/read, fixed, geometric, cuts inside tokens / multi-byte runes / two-character operators / escapes / around CR LF, real 4096-byte pages swept over every byte of a chosen token, zero-byte reads, data+EOF. Exhaustive per source for two-chunk partitions, sampled otherwise.",
